@@ -166,6 +166,9 @@ func (g *cgraph) defineLen(x ssa.Value, depth int) {
 		}
 	case *ssa.UnOp:
 		if v.Op == token.MUL {
+			if n := g.growCellLenLo(v); n > 0 {
+				g.le(zeroTerm, lt, -n)
+			}
 			switch ad := v.X.(type) {
 			case *ssa.Global:
 				if n, ok := a.globalLen(ad); ok {
